@@ -369,7 +369,11 @@ def run_case(case, ctx):
             if kind == "run" and k1 == "returned":
                 factory.armed = False
                 try:
-                    k3, r3, picks3, _ = _do(shared, op, {"draws": picks, "fallback": "first", "seed": 0}, univ, univ2)
+                    # KwikSort-free configurations must not depend on any draw: ask again under another schedule
+                    again = {"draws": picks, "fallback": "first", "seed": 0} if uses_random(op["alg"]) else \
+                        {"draws": [], "fallback": "last" if (op.get("sched") or {}).get("fallback") != "last" else "first",
+                         "seed": 1}
+                    k3, r3, picks3, _ = _do(shared, op, again, univ, univ2)
                 except Discard:
                     return
                 ctx.probe("twice_checked")
